@@ -505,6 +505,16 @@ def gc_chain_corpus():
     return json.load(open(f)) if os.path.exists(f) else []
 
 
+def rare_shape_corpus():
+    """[(grammar text, targeted inputs, why)]: grammar shapes that random generation meets once in 10^3..10^6 draws and on
+    which a construction slip shows (edge re-pointing, hash-order dependent merging, gc in the middle of the state list,
+    self-merge, empty alternative first, …), each with the inputs that expose it; collected from seeded changes the random
+    families missed or caught only as a broken correspondence (see DESIGN A.5)"""
+    import json, os
+    f = os.path.join(os.path.dirname(os.path.dirname(os.path.abspath(__file__))), "corpus", "rare_shapes.json")
+    return [(d["src"], d["inputs"], d["why"]) for d in json.load(open(f))] if os.path.exists(f) else []
+
+
 def from_text(src):
     """parse a rendered grammar (the subset render() produces) back into a Gram"""
     lines = [l for l in src.splitlines() if l.strip()]
